@@ -27,7 +27,8 @@ RCODES = [('NoError', 0), ('FormatError', 1), ('ServerFailure', 2), ('NameError'
 def scenarios(tier):
     sc = []
     # names: 'a' = x.y, 'b' = w.x.y (subdomain of a), 'c' = x.y again (equal to a), 'd' = z (unrelated), 'r' = root
-    base_names = {'a': ('L1', 'L2'), 'b': ('L0', 'L1', 'L2'), 'c': ('L1', 'L2'), 'd': ('L3',), 'r': ()}
+    base_names = {'a': ('L1', 'L2'), 'b': ('L0', 'L1', 'L2'), 'c': ('L1', 'L2'), 'd': ('L3',), 'r': (),
+                  'm': ('B63a', 'B63b', 'B63c', 'B61'), 'n': ('L0', 'B63b', 'B63c', 'B61')}
     sc.append(('empty', dict(q=[], an=[], ns=[], ar=[], opt=None)))
     sc.append(('q1', dict(q=['a'], an=[], ns=[], ar=[], opt=None)))
     sc.append(('q2_shared', dict(q=['a', 'b'], an=[], ns=[], ar=[], opt=None)))
@@ -35,7 +36,8 @@ def scenarios(tier):
     sc.append(('an_ns_ptr', dict(q=['b'], an=[('NS', 'a', ['b'])], ns=[('PTR', 'd', ['c'])], ar=[], opt=None)))
     sc.append(('mx_srv', dict(q=['a'], an=[('MX', 'a', ['b']), ('SRV', 'b', ['a'])], ns=[], ar=[('A', 'b', [])], opt=None)))
     sc.append(('opt_only', dict(q=[], an=[], ns=[], ar=[], opt=[])))
-    sc.append(('opt_and_ar', dict(q=['a'], an=[], ns=[], ar=[('A', 'a', []), ('TXT', 'b', [])], opt=[2])))
+    sc.append(('opt_and_ar', dict(q=['a'], an=[], ns=[], ar=[('A', 'a', []), ('TXT', 'b', [])], opt=[2, 0])))
+    sc.append(('maxname', dict(q=['m'], an=[('NS', 'm', ['n'])], ns=[], ar=[], opt=None)))   # 255-octet names
     sc.append(('soa_minfo', dict(q=[], an=[('SOA', 'a', ['b', 'c'])], ns=[('MINFO', 'd', ['a', 'b'])], ar=[], opt=None)))
     if tier == 'thorough':
         sc.append(('rp_afsdb_rt', dict(q=['b'], an=[('RP', 'a', ['b', 'c']), ('AFSDB', 'b', ['a'])], ns=[('RouteThrough', 'c', ['b'])], ar=[], opt=None)))
@@ -67,8 +69,10 @@ class Builder:
         g = self.g
         # shared label byte symbols: label id -> list of byte symbols (1 or 2 bytes each)
         self.lab = {}
-        self.lab_len = {'L0': 1, 'L1': 2, 'L2': 1, 'L3': 2}
+        self.lab_len = {'L0': 1, 'L1': 2, 'L2': 1, 'L3': 2, 'B63a': 63, 'B63b': 63, 'B63c': 63, 'B61': 61}
         self.entries = []       # for the walker: ('q'|'rr', ...)
+        self.rust_q, self.rust_rr = [], {'an': [], 'ns': [], 'ar': []}
+        self.cur_section = 'an'
 
     def label_bytes(self, lid):
         if lid not in self.lab:
@@ -111,9 +115,20 @@ class Builder:
     def record(self, tname, owner, rd_names):
         g = self.g
         oname, owire = self.name(owner)
+        o_rust = g.last_rust
         rd, rwire, code = self.rdata(tname, rd_names)
+        rd_rust = g.last_rust
         ttl = g.fresh('u32', 'ttl')
         flush = g.fresh('bool', 'fl')
+        if tname == 'NULL':
+            nd = rd.f[1].f[1].f[0]
+            rdr = lambda m, nd=nd: 'RData::NULL(65280, rdata::NULL::new(%s).unwrap())' % VG.rs_bytes(m, self.I.seq_list(nd))
+        else:
+            rdr = lambda m, rd_rust=rd_rust, tname=tname: 'RData::%s(%s)' % (tname, rd_rust(m))
+        self.rust_rr[self.cur_section].append(
+            lambda m, o_rust=o_rust, rdr=rdr, ttl=ttl, flush=flush:
+            'ResourceRecord::new(%s, CLASS::IN, %s, %s).with_cache_flush(%s)' % (
+                o_rust(m), VG.rs_int(m, ttl), rdr(m), 'true' if VG.ev(m, flush) else 'false'))
         rr = g.struct('ResourceRecord', name=oname, **{'class': En('CLASS', 'IN')}, ttl=ttl, rdata=rd, cache_flush=flush)
         self.entries.append(('rr', len(owire), code, len(rwire)))
         return rr
@@ -121,7 +136,10 @@ class Builder:
     def question(self, nid):
         g = self.g
         qn, w = self.name(nid)
+        q_rust = g.last_rust
         uni = g.fresh('bool', 'uni')
+        self.rust_q.append(lambda m, q_rust=q_rust, uni=uni: 'Question::new(%s, QTYPE::TYPE(TYPE::A), QCLASS::CLASS(CLASS::IN), %s)' % (
+            q_rust(m), 'true' if VG.ev(m, uni) else 'false'))
         q = g.struct('Question', qname=qn, qtype=En('QTYPE', 'TYPE', (En('TYPE', 'A'),)),
                      qclass=En('QCLASS', 'CLASS', (En('CLASS', 'IN'),)), unicast_response=uni)
         self.entries.append(('q', len(w)))
@@ -142,8 +160,10 @@ class Builder:
         self.opcode, self.rcode = OPCODES[oi], RCODES[ri]
         opt = NONE
         self.opt_fields = None
+        self.opt_rust = None
         if self.sc['opt'] is not None:
             ov, owire, _ = g.rdata(S.BY_NAME['OPT'], {'list': self.sc['opt']})
+            self.opt_rust = g.last_rust
             opt = Some(ov)
             self.opt_fields = g.opt_fields
             self.opt_wire = owire
@@ -153,15 +173,75 @@ class Builder:
                           z_flags=Agg('PacketFlag', (Agg('InternalBitFlags', (flags,)),)), opt=opt)
         self.pid, self.flags = pid, flags
         qs = [self.question(n) for n in self.sc['q']]
+        self.cur_section = 'an'
         an = [self.record(*r) for r in self.sc['an']]
+        self.cur_section = 'ns'
         ns = [self.record(*r) for r in self.sc['ns']]
         nopt_pos = len(self.entries)
+        self.cur_section = 'ar'
         ar = [self.record(*r) for r in self.sc['ar']]
         if self.sc['opt'] is not None:
             self.entries.insert(nopt_pos, ('rr', 1, 41, len(self.opt_wire)))
         self.counts = (len(qs), len(an), len(ns), len(ar) + (1 if self.sc['opt'] is not None else 0))
         return g.struct('Packet', header=header, questions=VecV(qs), answers=VecV(an), name_servers=VecV(ns),
                         additional_records=VecV(ar))
+
+
+RUST_PKT = r'''
+use crate::dns::name::Label;
+use crate::rdata::{self, RData};
+use crate::{CharacterString, Name, Packet, PacketFlag, Question, ResourceRecord, CLASS, OPCODE, QCLASS, QTYPE, RCODE, TYPE};
+use std::borrow::Cow;
+
+#[test]
+fn verif_case() {
+    let r = std::panic::catch_unwind(|| {
+        let mut fails: Vec<&str> = Vec::new();
+        let mut p = Packet::new_query(%(id)s);
+        p.set_flags(PacketFlag::from_bits_truncate(%(flags)s));
+        *p.opcode_mut() = OPCODE::%(opcode)s;
+        *p.rcode_mut() = RCODE::%(rcode)s;
+        %(opt)s
+        %(pushes)s
+        let plain = match p.build_bytes_vec() { Ok(b) => b, Err(_) => { return vec!["build"]; } };
+        let comp = match p.build_bytes_vec_compressed() { Ok(b) => b, Err(_) => { return vec!["build"]; } };
+        let counts = [p.questions.len(), p.answers.len(), p.name_servers.len(),
+                      p.additional_records.len() + usize::from(p.opt().is_some())];
+        for k in 0..4 {
+            if u16::from_be_bytes([plain[4 + 2 * k], plain[5 + 2 * k]]) as usize != counts[k] { fails.push("frame"); }
+        }
+        if comp.len() > plain.len() { fails.push("comp-len"); }
+        let shown = format!("{:?}", p);
+        match Packet::parse(&plain) {
+            Ok(p2) => {
+                if format!("{:?}", p2) != shown { fails.push("plain-eq"); }
+                match Packet::parse(&comp) {
+                    Ok(p3) => if format!("{:?}", p3) != format!("{:?}", p2) { fails.push("comp-eq"); },
+                    Err(_) => fails.push("comp-parse"),
+                }
+            }
+            Err(_) => fails.push("plain-parse"),
+        }
+        fails
+    });
+    match r {
+        Ok(f) => println!("REPLAY-RESULT {{\"outcome\":\"ok\",\"fails\":[{}]}}", f.iter().map(|s| format!("\"{}\"", s)).collect::<Vec<_>>().join(",")),
+        Err(_) => println!("REPLAY-RESULT {{\"outcome\":\"panic\"}}"),
+    }
+}
+'''
+
+
+def rust_packet(b, m):
+    pushes = []
+    for f in b.rust_q:
+        pushes.append('p.questions.push(%s);' % f(m))
+    for sec, field in (('an', 'answers'), ('ns', 'name_servers'), ('ar', 'additional_records')):
+        for f in b.rust_rr[sec]:
+            pushes.append('p.%s.push(%s);' % (field, f(m)))
+    opt = '*p.opt_mut() = Some(%s);' % b.opt_rust(m) if b.opt_rust else ''
+    return RUST_PKT % {'id': VG.ev(m, b.pid), 'flags': VG.ev(m, b.flags), 'opcode': b.opcode[0], 'rcode': b.rcode[0],
+                       'opt': opt, 'pushes': '\n        '.join(pushes)}
 
 
 def walk_plain(res, bytes_, b):
@@ -253,9 +333,13 @@ def run_task(prog, tid, params, tier):
 
         def viol(role, what):
             m = res.ctx.model()
-            vals = {str(s.e): VG.ev(m, s) for s in I.b.g.syms[:60]} if hasattr(I, 'b') else {}
-            return {'status': 'violation', 'role': role, 'detail': 'scenario %s: %s' % (tid, what),
-                    'cex': {'scenario': tid, 'values': vals}}
+            cex = {'scenario': tid}
+            if hasattr(I, 'b') and hasattr(I.b, 'pid'):
+                try:
+                    cex.update({'entry': 'rust_test', 'code': rust_packet(I.b, m), 'expect': {'any_failure': True}})
+                except Exception as e:      # noqa
+                    cex['code_error'] = repr(e)
+            return {'status': 'violation', 'role': role, 'detail': 'scenario %s: %s' % (tid, what), 'cex': cex}
         if res.kind == 'panic':
             return viol('panic', 'panic: ' + res.msg)
         if res.kind != 'return':
